@@ -1444,6 +1444,8 @@ def run(tier, replay=None):
         "the tie order of np.argsort, float printing and file parsing are outside this property",
     ])
     chk.prove()
+    chk.require("cli:multi-sample-bam", "sample order must not depend on the interpreter's hash seed")
+    chk.require("cli:cores-with-remainder", "blocks of unequal size")
     drv = C.Driver(EXE)
     work = tempfile.mkdtemp(prefix="verif-c08-")
     jobs = W.Jobs(workers=14)
